@@ -9,6 +9,8 @@ From AnySync Require Export Model.Ldiff.
 Open Scope N_scope.
 
 Inductive ncase :=
+(* both indexes reached by histories; the responder may use another threshold than the asker *)
+| CHistDiff (df thl thr : N) (opsL opsR : list op) (cmpv : bool) (wire_ : bool) (new ours theirs removed : list N)
 | CDiff (df th : N) (L R : list elem) (wire_ : bool) (new changed removed : list N)
 | CCompare (df th : N) (L R : list elem) (wire_ : bool) (new ours theirs removed : list N).
 
@@ -20,8 +22,19 @@ Definition model_diff (df th : N) (cmp : list (N*N) -> list (N*N) -> list (tag*N
   let other := remote_of (fresh df th (mk_contents R)) in
   diff_run df th cmp my (if w then wire other else other).
 
+Definition hist_diff (df thl thr : N) (opsL opsR : list op) (cmpv w : bool) : option (list (tag * N)) :=
+  let my := run_ops df thl opsL in
+  let other := remote_of (run_ops df thr opsR) in
+  diff_run df thl (if cmpv then cmp_greater else cmp_equal) my (if w then wire other else other).
+
 Definition model_ok (c : ncase) : bool :=
   match c with
+  | CHistDiff df thl thr oL oR cmpv w n ours theirs rm =>
+      match hist_diff df thl thr oL oR cmpv w with
+      | Some res => same_ids (ids_with TNew res) n && same_ids (ids_with TChanged res) ours
+                    && same_ids (ids_with TTheirChanged res) theirs && same_ids (ids_with TRemoved res) rm
+      | None => false
+      end
   | CDiff df th L R w n ch rm =>
       match model_diff df th cmp_equal L R w with
       | Some res => same_ids (ids_with TNew res) n && same_ids (ids_with TChanged res) ch
@@ -38,6 +51,11 @@ Definition model_ok (c : ncase) : bool :=
 
 Definition spec_ok (c : ncase) : bool :=
   match c with
+  | CHistDiff df thl thr oL oR cmpv w n ours theirs rm =>
+      let L := contents (run_ops df thl oL) in
+      let R := contents (run_ops df thr oR) in
+      if cmpv then spec_C07_compare L R n ours theirs rm
+      else spec_C07_diff L R n ours rm && nlist_eqb theirs []
   | CDiff df th L R w n ch rm => spec_C07_diff (mk_contents L) (mk_contents R) n ch rm
   | CCompare df th L R w n ours theirs rm => spec_C07_compare (mk_contents L) (mk_contents R) n ours theirs rm
   end.
@@ -48,9 +66,13 @@ Definition n_of (i : int) : N := Z.to_N (Uint63.to_Z i).
 Definition el (t : int * int * int * int) : elem :=
   let '(hi, lo, id, hd) := t in mkElem (n_of hi * 4294967296 + n_of lo) (n_of id) (n_of hd).
 
+Inductive iop := ISet (es : list (int * int * int * int)) | IRemove (id : int).
+Definition conv_op (o : iop) : op := match o with ISet es => OSet (map el es) | IRemove id => ORemove (n_of id) end.
+
 Inductive case :=
 | ICDiff (df th : int) (L R : list (int * int * int * int)) (wire_ : bool) (new changed removed : list int)
 | ICCompare (df th : int) (L R : list (int * int * int * int)) (wire_ : bool) (new ours theirs removed : list int)
+| ICHistDiff (df thl thr : int) (opsL opsR : list iop) (cmpv : bool) (wire_ : bool) (new ours theirs removed : list int)
 (* a pair too large for vm_compute (thousands of elements): compared by the harness against the set difference only;
    carried here just to give the case an index (sizes of the two sides) *)
 | ICLarge (nl nr : int).
@@ -61,6 +83,9 @@ Definition conv (c : case) : ncase :=
       CDiff (n_of df) (n_of th) (map el L) (map el R) w (map n_of n) (map n_of ch) (map n_of rm)
   | ICCompare df th L R w n o t rm =>
       CCompare (n_of df) (n_of th) (map el L) (map el R) w (map n_of n) (map n_of o) (map n_of t) (map n_of rm)
+  | ICHistDiff df thl thr oL oR cmpv w n o t rm =>
+      CHistDiff (n_of df) (n_of thl) (n_of thr) (map conv_op oL) (map conv_op oR) cmpv w
+                (map n_of n) (map n_of o) (map n_of t) (map n_of rm)
   | ICLarge _ _ => CDiff 2 1 [] [] false [] [] []
   end.
 
